@@ -117,6 +117,14 @@ def verify(ctx, rng, out, src, order, n, il, xl, q, mode, desc):
                 real = ' '.join(str(int(v)) for v in np.flatnonzero(r.mask))
                 if ans != real:
                     ctx.corr_fail('Model.Irregular/populated', f'irr pop <{len(stored)} values>', ans[:120], real[:120], desc)
+        # the grid as a decoder written from the specification reads it from the header (origin and increment of each axis
+        # at their documented byte positions), not only as the library's own reader reports it
+        hs = spec.read_header(out)[0]
+        s_il = [hs.il0 + hs.dil * j for j in range(hs.n_il)]
+        s_xl = [hs.xl0 + hs.dxl * j for j in range(hs.n_xl)]
+        if s_il != il or s_xl != xl:
+            ctx.fail(f'header read from the specification alone states il {s_il[:3]}.. xl {s_xl[:3]}.., the inferred grid is '
+                     f'il {il[:3]}.. xl {xl[:3]}..', desc)
         if list(map(int, r.ilines)) != il or list(map(int, r.xlines)) != xl:
             ctx.fail(f'inferred grid il {list(map(int, r.ilines))[:3]} xl {list(map(int, r.xlines))[:3]} != '
                      f'il {il[:3]} xl {xl[:3]}', desc)
